@@ -38,15 +38,22 @@ def box_tasks(tier):
             kw = dict(bounded=bound, timeout=2400, object_bits=9, defs={"BOX_D": d, "GHOST_RANGE": "((ex_t)%d)" % (1 << (u.defs["T_W"] + 1))}, split_post=True,
                       stubs=["c12_ghost.c", "c17_ghost.c", "c03_box.c"], group="box %s %s" % (tt, pol))
             pre = C03.BOX_SETUP + "\n  G_fy0 = fy; G_tokens = tok; G_tokens0 = tok; G_plain_changed = 0;\n  __CPROVER_assume(box_contains_sets());"
+            npre = "\n  G_fy0 = fy; G_tokens = tok; G_tokens0 = tok; G_plain_changed = 0;\n  PRE(y_in_x, box_contains_sets()) PRE(stop_points_sorted, stops_sorted())"
+            nat1 = C03.box_native("FN_b_cc76", "void", "BOX_T*, BOX_T*, uint32_t*", "uint32_t *tp = (with_tp ? &G_tokens : (uint32_t *)0); real_fn(x, y, tp)", "C_b_cc76_POSTS(0)",
+                                  extra_pre=npre + " PRE(tokens, !with_tp || tok == 0)")
+            nat2 = C03.box_native("FN_b_cc76", "void", "BOX_T*, BOX_T*, uint32_t*",
+                                  "real_fn(x, y, (uint32_t *)0); G_plain_changed = !box_same_as_entry(&G_bx);\n"
+                                  "  G_xs[0] = G_xs0[0]; G_xs[1] = G_xs0[1]; BOX_FLAGS(&G_bx) = G_fx0; G_ys[0] = ys0; G_ys[1] = ys1; BOX_FLAGS(&G_by) = G_fy0;\n"
+                                  "  uint32_t *tp = &G_tokens; real_fn(x, y, tp)", "C_b_cc76_POSTS(0)", extra_pre=npre + " PRE(tokens, tok > 0)")
             T.append(Task("box/%s/%s/CC76_widening_assign/plain/dim%d" % (tt, pol, d), u, "FN_b_cc76", ["C08/box_widen.h"], C03.box_vars() + [Var("uint32_t", "tok"), Var("_Bool", "with_tp")],
                           "__CPROVER_assume(!with_tp || tok == 0); FN_b_cc76(&G_bx, &G_by, with_tp ? &G_tokens : (uint32_t *)0)", harness_pre=pre,
                           reach=[("widened", "!box_same_as_entry(&G_bx)"), ("stationary", "!G_emptyY0 && ALLK(set_eq(&G_xs[0], &G_ys[0]), set_eq(&G_xs[1], &G_ys[1]))"),
-                                 ("zero tokens", "with_tp")], **kw))
+                                 ("zero tokens", "with_tp")], native=nat1, **kw))
             two = ("FN_b_cc76(&G_bx, &G_by, (uint32_t *)0);\n  G_plain_changed = !box_same_as_entry(&G_bx);\n"
                    "  G_xs[0] = G_xs0[0]; G_xs[1] = G_xs0[1]; BOX_FLAGS(&G_bx) = G_fx0; G_ys[0] = ys0; G_ys[1] = ys1; BOX_FLAGS(&G_by) = G_fy0;\n"
                    "  __CPROVER_assume(tok > 0);\n  w_b_cc76(&G_bx, &G_by, &G_tokens)")
             T.append(Task("box/%s/%s/CC76_widening_assign/tokens/dim%d" % (tt, pol, d), u, "w_b_cc76", ["C08/box_widen.h"], C03.box_vars() + [Var("uint32_t", "tok")],
-                          two, harness_pre=pre, reach=[("token consumed", "G_tokens == G_tokens0 - 1"), ("token kept", "G_tokens == G_tokens0")], **kw))
+                          two, harness_pre=pre, reach=[("token consumed", "G_tokens == G_tokens0 - 1"), ("token kept", "G_tokens == G_tokens0")], native=nat2, **kw))
     return units, T
 
 def build(tier):
